@@ -3,7 +3,16 @@
 Correspondence of Model/CacheFault.v with labrea.cache / labrea.dataset in front of a scripted
 faulty `labrea.cache.Cache` subclass (public ABC), plus the property's own oracle on the
 implementation (every evaluation == a cache-free evaluation of a fresh graph; bodies executed are a
-subsequence of the cache-free ones)."""
+subsequence of the cache-free ones; every evaluation returns within a budget of backend calls).
+
+Input families beyond the call-indexed fault scripts:
+* backend object styles: the scripted store itself, or a composite Cache delegating to it (the inner
+  store's CacheGetFailure propagates, naming the INNER object), or one re-raising the miss as its own;
+* graphs reading option keys that live inside the LABREA section of the dictionary (siblings of
+  labrea's own CACHE / LOGGING settings), required or with a never-needed default;
+* persistent adversaries: every exists/get/set call of an evaluation misbehaves the same way, and
+  payload-loss events (exists True, get failing until the entry is rewritten); the model is asked about
+  the call-indexed adversary the run actually applied."""
 import itertools
 import json
 import time
@@ -16,7 +25,32 @@ BAD = 13                       # option value on which a body that reads it dire
 KINDS = ("B", "M", "L", "F")   # behave, miss(+forget), lie-exists, fail-get
 COQ_KIND = {"B": "Behave", "M": "Miss", "L": "LieExists", "F": "FailGet"}
 
-# graph shapes: dataset i = list of arguments ("o", k) = Option("K<k>") | ("d", j) = dataset j < i
+# Option keys: k < 10 is the top-level key "K<k>"; larger numbers are keys that live INSIDE labrea's own
+# LABREA section of the dictionary, next to its CACHE / LOGGING settings (numeric order = the order of the
+# dotted names as strings, so the model's sorted fingerprint is the implementation's).
+LKEYS = {11: "LABREA.CACHE.K11", 12: "LABREA.K12", 14: "LABREA.LOGGING.K14"}
+
+
+def key_name(k):
+    return LKEYS[k] if k in LKEYS else f"K{k}"
+
+
+def build_options(opts, cache_disabled=False):
+    """The (nested) options dictionary of [(key number, value)]."""
+    po = {}
+    for k, v in opts:
+        parts = key_name(k).split(".")
+        cur = po
+        for p in parts[:-1]:
+            cur = cur.setdefault(p, {})
+        cur[parts[-1]] = v
+    if cache_disabled:
+        po.setdefault("LABREA", {}).setdefault("CACHE", {})["DISABLED"] = True
+    return po
+
+
+# graph shapes: dataset i = list of arguments ("o", k) = Option(key k) | ("p", k) = Option(key k, 0) (a
+# default that is never needed: every dictionary supplies every key) | ("d", j) = dataset j < i
 GRAPHS = {
     "single": [[("o", 1), ("o", 2)]],
     "chain": [[("o", 1)], [("d", 0), ("o", 2)], [("d", 1)]],
@@ -25,6 +59,30 @@ GRAPHS = {
     "fan": [[("o", 1)], [("o", 2)], [("d", 0), ("d", 1), ("o", 3)]],
     "pair": [[("o", 1)], [("d", 0), ("d", 0), ("o", 1)]],
 }
+# graphs that read keys of the LABREA section (siblings of labrea's own settings)
+LAB_GRAPHS = {
+    "lab": [[("o", 1), ("o", 12)]],
+    "labdef": [[("p", 14), ("o", 1)]],
+    "labchain": [[("p", 14), ("o", 1)], [("d", 0), ("o", 11)], [("d", 1), ("p", 12)]],
+}
+STYLES = ("direct", "front", "front2", "rewrap")   # how a dataset's backend object reaches the scripted store
+# persistent adversaries: behaviour of every exists / get / set call for the whole evaluation
+PHASES = ("BBB", "LFB", "LFM", "LBB", "BFB", "MMM")
+
+
+class Livelock(BaseException):
+    """Harness instrumentation: one evaluation made more backend calls than its budget."""
+
+
+def tree_size(shape, d):
+    """Number of dataset evaluations of the unfolded (cache-free) evaluation of dataset d."""
+    return 1 + sum(tree_size(shape, a[1]) for a in shape[d] if a[0] == "d")
+
+
+def call_budget(shape, d):
+    """A recomputation needs at most 4 backend calls per dataset evaluation (exists, get, set, read-back);
+    ten times that (and 40 more) is 'never returns' for a backend that misbehaves persistently."""
+    return 40 * tree_size(shape, d) + 40
 
 
 class BodyErr(Exception):
@@ -37,22 +95,33 @@ class Script:
     """The adversary: behaviour of the k-th backend call (then behave forever) + the call log."""
 
     def __init__(self):
-        self.script = ""
-        self.n = 0
-        self.log = []       # (kind, dataset, answer/hit)
-        self.used = []      # (behaviour, call kind) for every consumed non-behave entry
+        self.reset("")
 
     def reset(self, script):
         self.script = script
         self.n = 0
-        self.log = []
-        self.used = []
+        self.log = []       # (kind, dataset, answer/hit)
+        self.used = []      # (behaviour, call kind) for every consumed non-behave entry
+        self.applied = []   # behaviour applied at every backend call so far (the adversary as a function of the call index)
+        self.phase = "BBB"  # beyond the script: behaviour of every exists / get / set call (persistent)
+        self.poisoned = set()   # (backend, fingerprint): payload lost, index kept, until the entry is rewritten / dropped
+        self.budget = None
+        self.eval_calls = 0
 
-    def next(self, kind):
-        b = self.script[self.n] if self.n < len(self.script) else "B"
+    def next(self, kind, key=None):
+        self.eval_calls += 1
+        if self.budget is not None and self.eval_calls > self.budget:
+            raise Livelock(f"more than {self.budget} backend calls in one evaluation")
+        if self.n < len(self.script):
+            b = self.script[self.n]
+        else:
+            b = self.phase["EGS".index(kind)]
+            if b in "BL" and kind == "G" and key in self.poisoned:
+                b = "F"
         self.n += 1
         if b != "B":
             self.used.append((b, kind))
+        self.applied.append(b)
         return b
 
 
@@ -67,9 +136,13 @@ def make_cache_class():
             self.name = name
             self.d = {}
 
+        def _settle(self, f):
+            if f not in self.d:
+                self.sc.poisoned.discard((self.name, f))
+
         def exists(self, evaluatable, options):
             f = evaluatable.fingerprint(options)
-            b = self.sc.next("E")
+            b = self.sc.next("E", (self.name, f))
             if b == "M":
                 self.d.pop(f, None)
                 r = False
@@ -79,14 +152,16 @@ def make_cache_class():
                 r = False
             else:
                 r = f in self.d
+            self._settle(f)
             self.sc.log.append(("E", self.name, r))
             return r
 
         def get(self, evaluatable, options):
             f = evaluatable.fingerprint(options)
-            b = self.sc.next("G")
+            b = self.sc.next("G", (self.name, f))
             if b == "M":
                 self.d.pop(f, None)
+            self._settle(f)
             if b in ("M", "F") or f not in self.d:
                 self.sc.log.append(("G", self.name, False))
                 raise CacheGetFailure(evaluatable, options, self)
@@ -95,35 +170,83 @@ def make_cache_class():
 
         def set(self, evaluatable, options, value):
             f = evaluatable.fingerprint(options)
-            b = self.sc.next("S")
+            b = self.sc.next("S", (self.name, f))
             if b == "M":
                 self.d.pop(f, None)
             else:
                 self.d[f] = value
+            self.sc.poisoned.discard((self.name, f))      # rewritten (or dropped): the entry is whole again
             self.sc.log.append(("S", self.name, None))
 
     return ScriptedCache
 
 
+def make_front_classes():
+    """Contract-following composite backends: all storage lives in an inner Cache object."""
+    from labrea.cache import Cache, CacheGetFailure
+
+    class FrontCache(Cache):
+        """Delegates every call; a miss is reported by the inner store's own CacheGetFailure, which simply
+        propagates (its `.cache` names the inner store, not this object)."""
+
+        def __init__(self, inner):
+            self.inner = inner
+
+        def get(self, evaluatable, options):
+            return self.inner.get(evaluatable, options)
+
+        def set(self, evaluatable, options, value):
+            self.inner.set(evaluatable, options, value)
+
+        def exists(self, evaluatable, options):
+            return self.inner.exists(evaluatable, options)
+
+    class RewrapCache(FrontCache):
+        """Delegates; reports the inner store's miss as its own CacheGetFailure (cause = the inner one)."""
+
+        def get(self, evaluatable, options):
+            try:
+                return self.inner.get(evaluatable, options)
+            except CacheGetFailure as e:
+                raise CacheGetFailure(evaluatable, options, self) from e
+
+    return FrontCache, RewrapCache
+
+
 class World:
     """One live labrea graph; backends are reset between scenarios (labrea keeps no other state)."""
 
-    def __init__(self, shape, faulty=True):
+    def __init__(self, shape, faulty=True, style="direct"):
         from labrea import Option, dataset
         self.shape = shape
+        self.style = style
         self.script = Script()
         self.runs = []
-        self.caches = []
+        self.caches = []    # the scripted stores
         self.ds = []
         cls = make_cache_class() if faulty else None
+        front, rewrap = make_front_classes() if faulty else (None, None)
         for i, args in enumerate(shape):
             defaults = {}
             for n, a in enumerate(args):
-                defaults[f"a{n}"] = Option(f"K{a[1]}") if a[0] == "o" else self.ds[a[1]]
+                if a[0] == "o":
+                    defaults[f"a{n}"] = Option(key_name(a[1]))
+                elif a[0] == "p":
+                    defaults[f"a{n}"] = Option(key_name(a[1]), 0)
+                else:
+                    defaults[f"a{n}"] = self.ds[a[1]]
             body = self._body(i)
             if faulty:
                 c = cls(self.script, i)
                 self.caches.append(c)
+                if style == "front":
+                    c = front(c)
+                elif style == "front2":
+                    c = front(front(c))
+                elif style == "rewrap":
+                    c = rewrap(c)
+                elif style != "direct":
+                    raise ValueError(style)
                 self.ds.append(dataset(cache=c, defaults=defaults)(body))
             else:
                 self.ds.append(dataset(defaults=defaults)(body))
@@ -150,22 +273,25 @@ class World:
     def evaluate(self, dis, d, opts):
         """-> (result string, calls, runs) of one evaluation, canonicalised."""
         from labrea.cache import disabled
-        po = {f"K{k}": v for k, v in opts}
+        po = build_options(opts)
         c0, r0 = len(self.script.log), len(self.runs)
+        self.script.eval_calls = 0
+        self.script.budget = call_budget(self.shape, d)
         try:
             if dis == "runtime":
                 with disabled():
                     v = self.ds[d](po)
             elif dis == "option":
-                po["LABREA"] = {"CACHE": {"DISABLED": True}}
-                v = self.ds[d](po)
-                del po["LABREA"]
+                v = self.ds[d](build_options(opts, cache_disabled=True))
             else:
                 v = self.ds[d](po)
             res = "ok:" + show_val(v)
+        except Livelock:
+            res = "hang"
         except Exception as e:  # canonicalise: which body raised, or the exception class
-            po.pop("LABREA", None)
             res = classify(e)
+        self.script.budget = None
+        po = build_options(opts)
         calls = self.script.log[c0:]
         runs = self.runs[r0:]
         fps = {}
@@ -210,7 +336,7 @@ def show_fp(b):
         out = []
         for it in items:
             (k, v), = it.items()
-            out.append(f"{int(k[1:])}={v}")
+            out.append(f"{int(k.rsplit('K', 1)[1])}={v}")
         return "&".join(out)
     except Exception:
         return "?fp"
@@ -227,7 +353,7 @@ def show_eval(res, calls, runs):
 
 def coq_shape(shape):
     def arg(a):
-        return f"AOpt {a[1]}" if a[0] == "o" else f"ADs {a[1]}"
+        return f"AOpt {a[1]}" if a[0] in ("o", "p") else f"ADs {a[1]}"
     return "([" + "; ".join("[" + "; ".join(arg(a) for a in args) + "]" for args in reversed(shape)) + "]%N : list (list arg))"
 
 
@@ -246,7 +372,7 @@ def coq_hist(h):
 # ----------------------------------------------------------------------------- histories
 
 def option_dicts(shape, rng, n, with_bad):
-    ks = sorted({a[1] for args in shape for a in args if a[0] == "o"})
+    ks = sorted({a[1] for args in shape for a in args if a[0] in ("o", "p")})
     base = [(k, rng.choice([1, 2, 3])) for k in ks]
     out = [base]
     while len(out) < n:
@@ -307,7 +433,7 @@ def eager(shape, d, opts):
     runs = []
 
     def ev(i):
-        vals = tuple(od[a[1]] if a[0] == "o" else ev(a[1]) for a in shape[i])
+        vals = tuple(od[a[1]] if a[0] in ("o", "p") else ev(a[1]) for a in shape[i])
         ok = not any(isinstance(v, int) and v == BAD for v in vals)
         runs.append((i, ok))
         if not ok:
@@ -348,14 +474,45 @@ def is_subsequence(a, b):
     return all(any(x == y for y in it) for x in a)
 
 
-def run_scenario(w, gname, script, hist, ref, viol, stats):
-    """Run one scenario on the implementation; return its observation line. Oracle failures -> viol."""
+def scenario_fields(w, extra):
+    """What a replay needs besides (graph, script, history)."""
+    out = {"style": w.style}
+    if extra and extra.get("phases"):
+        out["phases"] = list(extra["phases"])
+    if extra and extra.get("poison"):
+        out["poison"] = list(extra["poison"])
+    return out
+
+
+def run_scenario(w, gname, script, hist, ref, viol, stats, extra=None):
+    """Run one scenario on the implementation; return its observation line. Oracle failures -> viol.
+
+    extra: {"phases": per evaluation, the persistent behaviour of (exists, get, set) calls beyond the script;
+            "poison": indices of evaluations before which every stored entry loses its payload but stays listed
+                      (exists -> True, get -> CacheGetFailure) until it is rewritten or dropped}."""
     w.reset(script)
+    phases = (extra or {}).get("phases")
+    poison = set((extra or {}).get("poison") or ())
+    fields = scenario_fields(w, extra)
     lines = []
     succeeded = {}     # (dataset, fingerprint) -> index of the cache-enabled evaluation whose body run succeeded
     twice = None
     for idx, (dis, d, opts) in enumerate(hist):
+        w.script.phase = phases[idx] if phases else "BBB"
+        if idx in poison:
+            w.script.poisoned |= {(c.name, f) for c in w.caches for f in c.d}
         res, calls, runs = w.evaluate(dis, d, opts)
+        if res == "hang":
+            stats["evaluations"] += 1
+            lines.append("hang;;")
+            viol.append(dict(desc=f"evaluation did not return: more than {call_budget(w.shape, d)} backend calls in ONE evaluation "
+                                  f"(a recomputation needs at most {4 * tree_size(w.shape, d)}) — the library keeps consulting a backend "
+                                  "that keeps misbehaving instead of recomputing",
+                             graph=gname, shape=w.shape, script=script, history=hist_json(hist), **fields,
+                             evaluation_index=idx, got="no result", want=ref.get(gname, w.shape, d, opts, viol)[0],
+                             got_runs=[(i, ok) for i, ok, _ in runs], want_runs=[],
+                             backend_calls=[list(c) for c in calls[:12]] + ["..."]))
+            break
         lines.append(show_eval(res, calls, runs))
         if not dis:
             for i, ok, fp in runs:
@@ -380,7 +537,7 @@ def run_scenario(w, gname, script, hist, ref, viol, stats):
         elif not is_subsequence(got_runs, want_runs):
             bad = "bodies executed are not a subsequence of the cache-free evaluation's (more than recomputation)"
         if bad:
-            viol.append(dict(desc=bad, graph=gname, shape=w.shape, script=script, history=hist_json(hist),
+            viol.append(dict(desc=bad, graph=gname, shape=w.shape, script=script, history=hist_json(hist), **fields,
                              evaluation_index=idx, got=res, want=want, got_runs=got_runs,
                              want_runs=want_runs, backend_calls=[list(c) for c in calls]))
         if res.startswith("raise:"):
@@ -393,14 +550,14 @@ def run_scenario(w, gname, script, hist, ref, viol, stats):
         # the truthful end of the cost range: no fault was consumed, yet a body succeeded twice
         viol.append(dict(desc="with a backend that never misbehaved, a (dataset, fingerprint) body was executed "
                               "successfully twice (recomputation without any fault)",
-                         graph=gname, shape=w.shape, script=script, history=hist_json(hist),
+                         graph=gname, shape=w.shape, script=script, history=hist_json(hist), **fields,
                          evaluation_index=twice["again"], got=f"dataset {twice['dataset']} {{{twice['fingerprint']}}} ran again",
                          want=f"served from the cache (it succeeded in evaluation {twice['first']})"))
     if twice is None and not w.script.used:
         stats["truthful_scenarios_each_body_once"] += 1
     for b, k in w.script.used:
         stats["faults_consumed"][b + "@" + k] = stats["faults_consumed"].get(b + "@" + k, 0) + 1
-    return "/".join(lines), len(w.script.used)
+    return "/".join(lines), len(w.script.used), "".join(w.script.applied)
 
 
 def hist_json(h):
@@ -441,7 +598,7 @@ def scenarios(ctx):
         yield g, s, hist, "random"
 
 
-def random_dags(rng, n):
+def random_dags(rng, n, prefix="dag", keys=None):
     out = {}
     for i in range(n):
         k = rng.randint(2, 5)
@@ -451,11 +608,74 @@ def random_dags(rng, n):
             for _ in range(rng.randint(1, 3)):
                 if j > 0 and rng.random() < 0.6:
                     args.append(("d", rng.randrange(j)))
-                else:
+                elif keys is None:
                     args.append(("o", rng.randint(1, 3)))
+                else:
+                    args.append((rng.choice("op"), rng.choice(keys)))
             shape.append(args)
-        out[f"dag{i}"] = shape
+        out[f"{prefix}{i}"] = shape
     return out
+
+
+LAB_HISTORIES = {
+    "lab": [(False, 0, [(1, 1), (12, 2)]), (False, 0, [(1, 1), (12, 2)]), (False, 0, [(1, 1), (12, 5)]),
+            (False, 0, [(1, 1), (12, 2)]), ("option", 0, [(1, 1), (12, 2)]), (False, 0, [(1, 4), (12, 5)])],
+    "labdef": [(False, 0, [(1, 1), (14, 2)]), (False, 0, [(1, 1), (14, 2)]), (False, 0, [(1, 1), (14, 5)]),
+               (False, 0, [(1, 1), (14, 2)])],
+    "labchain": [(False, 2, [(1, 1), (11, 2), (12, 3), (14, 4)]), (False, 2, [(1, 1), (11, 2), (12, 3), (14, 4)]),
+                 (False, 1, [(1, 1), (11, 5), (12, 3), (14, 4)]), (False, 2, [(1, 1), (11, 2), (12, 3), (14, 6)]),
+                 (False, 0, [(1, 1), (11, 2), (12, 3), (14, 4)])],
+}
+PHASE_HISTORIES = {
+    "single": FIXED_HISTORIES["single"][:4],
+    "chain": FIXED_HISTORIES["chain"][:3],
+}
+ALL_PHASES = [e + g + st for e in "BMLF" for g in "BMF" for st in "BM"]
+
+
+def gen_phases(rng, n):
+    """Persistent behaviour per evaluation + the evaluations before which the stored payloads are lost."""
+    phases = ["BBB" if rng.random() < 0.4 else rng.choice(ALL_PHASES) for _ in range(n)]
+    poison = [i for i in range(1, n) if rng.random() < 0.2]
+    return phases, poison
+
+
+def more_scenarios(ctx, graphs):
+    """The round-2 families: yield (graph name, script, history, stream label, extra).
+    extra["style"] None = chosen at random by the caller."""
+    rng = ctx.rng
+    quick = ctx.quick
+    graphs.update(LAB_GRAPHS)
+    # (1) graphs reading keys INSIDE the LABREA section: exhaustive prefixes, windows, random
+    for g, n in (("lab", 5 if quick else 7), ("labdef", 4 if quick else 6)):
+        for sc in itertools.product(KINDS, repeat=n):
+            yield g, "".join(sc), LAB_HISTORIES[g], f"labrea-section-exhaustive-{n}", {}
+    win = 4 if quick else 5
+    for off in ((0, 5) if quick else (0, 3, 6, 9, 12)):
+        for sc in itertools.product(KINDS, repeat=win):
+            yield "labchain", "B" * off + "".join(sc), LAB_HISTORIES["labchain"], f"labrea-section-window-{win}", {}
+    ldags = random_dags(rng, 3 if quick else 30, prefix="ldag", keys=[1, 2, 11, 12, 14])
+    graphs.update(ldags)
+    lnames = list(LAB_GRAPHS) + list(ldags)
+    for _ in range(300 if quick else 4000):
+        g = rng.choice(lnames)
+        hist = gen_history(graphs[g], rng)
+        dens = rng.choice([0.15, 0.4, 0.75, 1.0])
+        sc = "".join(rng.choice("MLF") if rng.random() < dens else "B" for _ in range(rng.randint(4, 30)))
+        yield g, sc, hist, "labrea-section-random", {}
+    # (2) PERSISTENT adversaries: the backend misbehaves the same way at EVERY call of an evaluation
+    for g, hist in PHASE_HISTORIES.items():
+        for ph in itertools.product(PHASES, repeat=len(hist)):
+            yield g, "", hist, "persistent-exhaustive", {"phases": list(ph)}
+    names = list(graphs)
+    for _ in range(700 if quick else 8000):
+        g = rng.choice(names)
+        hist = gen_history(graphs[g], rng)
+        phases, poison = gen_phases(rng, len(hist))
+        sc = ""
+        if rng.random() < 0.3:
+            sc = "".join(rng.choice("BMLF") for _ in range(rng.randint(1, 6)))
+        yield g, sc, hist, "persistent-random", {"phases": phases, "poison": poison}
 
 
 def coq_eval_fallback(ctx, name, prelude, exprs):
@@ -478,10 +698,11 @@ def new_stats():
 def work(chunk):
     """Run a chunk of scenarios on the implementation (in a worker process)."""
     worlds, ref, viol, stats, out = {}, Reference(), [], new_stats(), []
-    for gname, shape, script, hist in chunk:
-        if gname not in worlds:
-            worlds[gname] = World(shape)
-        out.append(run_scenario(worlds[gname], gname, script, hist, ref, viol, stats))
+    for gname, shape, script, hist, extra in chunk:
+        wk = (gname, extra["style"])
+        if wk not in worlds:
+            worlds[wk] = World(shape, style=extra["style"])
+        out.append(run_scenario(worlds[wk], gname, script, hist, ref, viol, stats, extra))
     return out, viol, stats, {k: v[2] for k, v in ref.memo.items()}
 
 
@@ -491,29 +712,39 @@ def run(ctx):
     rng = ctx.rng
     graphs = dict(GRAPHS)
     streams = {}
-    todo = []      # (graph name, script, history, label)
+    todo = []      # (graph name, script, history, label, extra)
     for g, s, hist, label in scenarios(ctx):
-        todo.append((g, s, hist, label))
+        todo.append((g, s, hist, label, {"style": "direct"}))
     for g, shape in random_dags(rng, 6 if ctx.quick else 60).items():
         graphs[g] = shape
         for _ in range(40 if ctx.quick else 150):
             hist = gen_history(shape, rng)
             s = "".join(rng.choice("MLF") if rng.random() < 0.5 else "B" for _ in range(rng.randint(4, 30)))
-            todo.append((g, s, hist, "random-dag"))
-    for _, _, _, label in todo:
+            todo.append((g, s, hist, "random-dag", {"style": "direct"}))
+    # every scenario above once more behind a DELEGATING backend object (the model's answer is the same one)
+    n_direct = len(todo)
+    for k in range(n_direct):
+        g, s, hist, label, _ = todo[k]
+        if label.startswith("exhaustive") and s[6:].strip("B"):
+            continue    # (thorough tier: the delegating copy of the exhaustive streams stops at prefix length 6)
+        todo.append((g, s, hist, label + "+delegating", {"style": STYLES[1 + k % (len(STYLES) - 1)]}))
+    for g, s, hist, label, extra in more_scenarios(ctx, graphs):
+        todo.append((g, s, hist, label, dict(extra, style=rng.choice(STYLES))))
+    for _, _, _, label, _ in todo:
         streams[label] = streams.get(label, 0) + 1
 
     # --- implementation side (worker processes; results concatenated in generation order)
     t0 = time.time()
     jobs = 12
     size = max(50, (len(todo) + 4 * jobs - 1) // (4 * jobs))
-    chunks = [[(g, graphs[g], s, h) for g, s, h, _ in todo[k:k + size]] for k in range(0, len(todo), size)]
+    chunks = [[(g, graphs[g], s, h, x) for g, s, h, _, x in todo[k:k + size]] for k in range(0, len(todo), size)]
     with multiprocessing.get_context("fork").Pool(jobs) as pool:
         results = pool.map(work, chunks)
-    viol, stats, refs, lines, used = [], new_stats(), {}, [], []
+    viol, stats, refs, lines, used, applied = [], new_stats(), {}, [], [], []
     for out, v, st, rf in results:
         lines += [o[0] for o in out]
         used += [o[1] for o in out]
+        applied += [o[2] for o in out]
         viol += v
         refs.update(rf)
         for k, x in st.items():
@@ -522,10 +753,13 @@ def run(ctx):
                     stats[k][kk] = stats[k].get(kk, 0) + n
             else:
                 stats[k] += x
-    cases = [(g, s, h, line) for (g, s, h, _), line in zip(todo, lines)]
+    # the adversary handed to the model: the scenario's script; for a persistent adversary the behaviour it
+    # actually applied at each backend call of the run (the model's adversary is a function of the call index)
+    cases = [(g, (ap if (x.get("phases") or x.get("poison")) else s), h, line, s, x)
+             for (g, s, h, _, x), line, ap in zip(todo, lines, applied)]
     distinct, nontrivial = set(), set()
-    for (g, s, h, _), u in zip(todo, used):
-        hh = lib.stable_hash([graphs[g], s, hist_json(h)])
+    for (g, s, h, _, x), u in zip(todo, used):
+        hh = lib.stable_hash([graphs[g], s, hist_json(h), sorted(x.items())])
         distinct.add(hh)
         if u:
             nontrivial.add(hh)
@@ -539,15 +773,21 @@ def run(ctx):
         gdef[g] = f"lv_g{i}"
         prelude.append(f"Definition lv_g{i} := {coq_shape(shape)}.")
     hdef = {}
-    for g, hist in FIXED_HISTORIES.items():
-        hdef[id(hist)] = f"lv_h_{g}"
-        prelude.append(f"Definition lv_h_{g} := {coq_hist(hist)}.")
-    exprs = []
-    for g, s, hist, line in cases:
+    for tag, table in (("", FIXED_HISTORIES), ("l", LAB_HISTORIES), ("p", PHASE_HISTORIES)):
+        for g, hist in table.items():
+            hdef[id(hist)] = f"lv_h{tag}_{g}"
+            prelude.append(f"Definition lv_h{tag}_{g} := {coq_hist(hist)}.")
+    exprs, expr_ix, case_expr = [], {}, []      # identical questions (same scenario behind another backend object) asked once
+    for g, s, hist, line, _s0, _x in cases:
         hx = hdef.get(id(hist)) or coq_hist(hist)
         impl = "[" + "; ".join(f'"{x}"' for x in line.split("/")) + "]"
-        exprs.append(f"agree_hist {gdef[g]} {coq_script(s)} {hx} {impl}")
-    verdicts = coq_eval_fallback(ctx, "Cases_C17", "\n".join(prelude), exprs)
+        e = f"agree_hist {gdef[g]} {coq_script(s)} {hx} {impl}"
+        if e not in expr_ix:
+            expr_ix[e] = len(exprs)
+            exprs.append(e)
+        case_expr.append(expr_ix[e])
+    uverdicts = coq_eval_fallback(ctx, "Cases_C17", "\n".join(prelude), exprs)
+    verdicts = [uverdicts[i] for i in case_expr]
     bad = [k for k, v in enumerate(verdicts) if v != "="]
     n_mism = len(bad)
     mism = []
@@ -556,9 +796,10 @@ def run(ctx):
                             [f"observe {gdef[cases[k][0]]} {coq_script(cases[k][1])} {coq_hist(cases[k][2])}" for k in bad[:5]],
                             shard=5)
         for k, ml in zip(bad[:5], full):
-            g, s, hist, line = cases[k]
+            g, s, hist, line, s0, x = cases[k]
             mism.append(dict(where="Model/CacheFault.v vs labrea.cache/labrea.dataset behind a scripted Cache subclass",
-                             scenario=dict(graph=g, shape=graphs[g], script=s, history=hist_json(hist)),
+                             scenario=dict(graph=g, shape=graphs[g], script=s0, history=hist_json(hist), applied_script=s,
+                                           **{kk: vv for kk, vv in x.items() if vv}),
                              first_differing_evaluation=int(verdicts[k].split("#")[0]),
                              impl=line.split("/"), model=ml.split("/")))
 
@@ -576,26 +817,30 @@ def run(ctx):
                 mism.append(dict(where="Model refv/ref_runs vs a fresh graph under labrea.cache.disabled()",
                                  scenario=dict(graph=g, shape=graphs[g], dataset=d, options=[list(kv) for kv in opts]),
                                  impl=line, model=ml))
-    lib.log(f"[C17] model side: {len(exprs) + len(ref_exprs)} vm_compute cases in {time.time() - t0:.1f}s")
+    lib.log(f"[C17] model side: {len(exprs) + len(ref_exprs)} vm_compute cases ({len(cases)} scenarios) in {time.time() - t0:.1f}s")
 
     seen, uniq = set(), []
     for v in viol:
-        hh = lib.stable_hash([v["desc"], v["shape"], v["script"], v["history"], v["evaluation_index"]])
+        hh = lib.stable_hash([v["desc"], v["shape"], v["script"], v["history"], v["evaluation_index"],
+                              v.get("style"), v.get("phases"), v.get("poison")])
         if hh not in seen:
             seen.add(hh)
             uniq.append(v)
     viol = uniq
-    viol.sort(key=lambda v: (len(v["script"].rstrip("B")), len(v["history"]), v["evaluation_index"]))
+    viol.sort(key=lambda v: (len(v["script"].rstrip("B")) + 3 * len(v.get("phases") or ()), len(v["history"]), v["evaluation_index"]))
     violations = [dict(v, finding=None) for v in viol[:50]]
     step = max(1, len(cases) // 4)
-    samples = [dict(graph=c[0], shape=graphs[c[0]], script=c[1], history=hist_json(c[2]), observation=c[3])
+    samples = [dict(graph=c[0], shape=graphs[c[0]], script=c[4], history=hist_json(c[2]), observation=c[3],
+                    **{kk: vv for kk, vv in c[5].items() if vv})
                for c in cases[step // 2::step][:4]]
     nx = (6, 6, 0, 0) if ctx.quick else EXH_THOROUGH
     return {
         "evaluations": stats["evaluations"],
         "distinct_nontrivial": len(nontrivial),
         "rule": "scenario = (graph, fault script, history of 3-8 evaluations over 2-4 option dictionaries with repeats, "
-                "cache-disabled evaluations and a raising body); distinct by hash of (graph shape, script, history); "
+                "cache-disabled evaluations and a raising body; backend object style direct/delegating; optionally a persistent "
+                "per-evaluation behaviour of all exists/get/set calls and payload-loss events); distinct by hash of "
+                "(graph shape, script, history, style, phases, payload losses); "
                 "non-trivial when at least one non-behave script entry was actually consumed by a backend call",
         "samples": samples,
         "traces_validated_against_impl": len(cases) + len(ref_lines),
@@ -614,6 +859,15 @@ def run(ctx):
             + " consecutive calls at several offsets on further graphs; random beyond (streams in distribution)",
             "every option key a graph reads is present in every dictionary (missing options: C04); values are small ints",
             "one backend object per dataset (the fingerprint does not identify the dataset), all sharing the adversary's call counter",
+            "backend object styles: the scripted store itself, or a composite Cache that delegates every call to it (one or two "
+            "levels; the inner store's CacheGetFailure propagates unchanged, so its .cache names the INNER object), or one that "
+            "re-raises the miss as its own; the model does not distinguish them (same observation demanded)",
+            "option keys 11/12/14 live inside the LABREA section of the dictionary (LABREA.CACHE.K11, LABREA.K12, LABREA.LOGGING.K14), "
+            "next to labrea's own settings; ('p', k) arguments are Options with a default that is never needed",
+            "persistent adversaries (every exists/get/set call of an evaluation behaves per a 3-letter phase; payload-loss events "
+            "make exists() True and get() fail for the stored entries until they are rewritten) are run on the implementation with a "
+            "budget of 40*(dataset evaluations of the cache-free run)+40 backend calls per evaluation: exceeding it is reported as "
+            "'did not return'; the model is asked about the call-indexed adversary that the run actually applied",
             "the backend follows the Cache contract: get returns only what was set for that fingerprint or raises CacheGetFailure; "
             "set/exists never raise (CacheSetFailure / CacheExistsFailure are outside the four behaviours of the property)",
             "fingerprint soundness (equal fingerprints => equal cache-free result) is proved here only for this graph language "
@@ -622,6 +876,7 @@ def run(ctx):
         "trusted_base": [
             "ScriptedCache (harness) is the adversary's implementation on the Python side; its four behaviours are "
             "transcribed in Model/CacheFault.v b_exists/b_get/b_set and compared call by call",
+            "FrontCache / RewrapCache (harness): delegating Cache subclasses in front of ScriptedCache",
         ],
     }
 
@@ -640,14 +895,17 @@ def replay(ctx, payload):
     hist = hist_from_json(v["history"])
     script = v["script"]
     gname = v.get("graph", "replayed")
-    w = World(shape)
+    extra = {"style": v.get("style", "direct"), "phases": v.get("phases"), "poison": v.get("poison")}
+    w = World(shape, style=extra["style"])
     ref = Reference()
     viol = []
     stats = new_stats()
-    line, _ = run_scenario(w, gname, script, hist, ref, viol, stats)
+    line, _, applied = run_scenario(w, gname, script, hist, ref, viol, stats, extra)
+    mscript = applied if (extra["phases"] or extra["poison"]) else script
     ml = ctx.coq_eval("Replay_C17", ["Model.CacheFault", "Model.CacheFaultRun"], "",
-                      [f"observe {coq_shape(shape)} {coq_script(script)} {coq_hist(hist)}"])[0]
+                      [f"observe {coq_shape(shape)} {coq_script(mscript)} {coq_hist(hist)}"])[0]
     detail = {"graph": gname, "shape": v["shape"], "script": script, "history": v["history"],
+              "backend_style": extra["style"], "phases": extra["phases"], "poison": extra["poison"],
               "impl": line.split("/"), "model": ml.split("/"),
               "oracle_violations": [dict(desc=x["desc"], evaluation_index=x["evaluation_index"], got=x["got"], want=x["want"])
                                     for x in viol[:3]]}
